@@ -1,0 +1,18 @@
+//go:build verif
+
+package engine
+
+import (
+	"github.com/prometheus/prometheus/promql"
+
+	"github.com/thanos-community/promql-engine/execution/model"
+)
+
+// VerifRoot exposes the root operator slot of a natively planned query to the
+// verification harness (build tag verif only); nil for other queries.
+func VerifRoot(q promql.Query) *model.VectorOperator {
+	if cq, ok := q.(*compatibilityQuery); ok {
+		return &cq.Query.exec
+	}
+	return nil
+}
